@@ -1,5 +1,6 @@
 """C16 — !append / !extend / !prev move and grow existing content without loss."""
 import copy
+import re
 from props.mergefam import *
 from props.c04 import plain_of, val_to_py, get_at, gen_plain_value, container_paths
 
@@ -61,10 +62,19 @@ def ref_stage(acc, raw):
                 return node + [plain_of(c) for c in n['q']]
             return [plain_of(c) for c in n['q']]
         if t == 'prev':
-            try:
-                tp = [sc_py(k) for k in NodePath.get_list_path(n['s']['x'])]
-            except ValueError:
-                raise PremergeFail()     # not a valid path string (keys that are not identifiers cannot be addressed by !prev)
+            text = n['s']['x']
+            if _SIMPLE_PATH.fullmatch(text):
+                # plain names and positions: read by the reference itself, not by the implementation's path parser
+                tp = []
+                for part in text.split('.'):
+                    name, idx = re.fullmatch(r'([A-Za-z_][A-Za-z_0-9]*)((?:\[-?[0-9]+\])*)', part).groups()
+                    tp.append(name)
+                    tp += [int(x) for x in re.findall(r'-?[0-9]+', idx)]
+            else:
+                try:
+                    tp = [sc_py(k) for k in NodePath.get_list_path(text)]
+                except ValueError:
+                    raise PremergeFail()     # not a valid path string (keys that are not identifiers cannot be addressed by !prev)
             try:
                 return ref_remove(acc, tp)
             except (KeyError, IndexError, TypeError):
@@ -81,6 +91,8 @@ def unordered_py(x):
     if isinstance(x, dict): return ('d', sorted((repr(k), unordered_py(v)) for k, v in x.items()))
     if isinstance(x, list): return ('l', [unordered_py(v) for v in x])
     return x
+
+_SIMPLE_PATH = re.compile(r'[A-Za-z_][A-Za-z_0-9]*(\[-?[0-9]+\])*(\.[A-Za-z_][A-Za-z_0-9]*(\[-?[0-9]+\])*)*')
 
 class C16(MergeFamProp):
     ID = 'C16'
@@ -121,6 +133,9 @@ class C16(MergeFamProp):
                 # an operator in the FIRST document has nothing before it: it becomes a plain list, which later operators must be able
                 # to grow and move like any other (seeded change S6-C16: the first-stage node stayed an operator node)
                 base['m'].append([rng.choice(['fs', 'first']), Q([gen_plain_value(rng, 0) for _ in range(rng.choice([1, 2]))], tag=rng.choice(['append', 'extend']))])
+            if rng.random() < 0.12:
+                # a long list: positions with two digits in the path texts of !prev, and as the list an operator grows (round 8)
+                base['m'].append([rng.choice(['long', 'layers']), Q([gen_plain_value(rng, 1 if rng.random() < 0.3 else 0) for _ in range(rng.choice([11, 12, 13]))])])
             docs = [{'raw': base}]
             cur = copy.deepcopy(plain_of(base))
             for _s in range(rng.choice([1, 1, 2, 2, 3])):
@@ -162,6 +177,9 @@ class C16(MergeFamProp):
                         leaf = Q([gen_plain_value(rng, 1) for _ in range(rng.choice([0, 1, 2]))], tag='extend')
                     elif r < 0.9:
                         src = rng.choice([pp for pp, o in paths if pp]) if len(paths) > 1 and rng.random() < 0.85 else ('missing', 'x')
+                        far = [pp for pp, o in paths if any(isinstance(k, int) and k >= 10 for k in pp)]
+                        if far and rng.random() < 0.5:
+                            src = rng.choice(far)
                         x = rng.random()
                         if x < 0.55: p = (rng.choice(['q', 'r', 'moved']),)
                         elif x < 0.7: p = missing_path(rng.choice(['q', 'moved']))      # a new key at depth >= 2 (below an existing mapping)
